@@ -10,6 +10,7 @@ import NmfuModel.EquivF
 import NmfuModel.Ambig
 import NmfuModel.MacroLookup
 import NmfuModel.Opt
+import NmfuModel.CondGen
 import NmfuModel.Generated.Flags
 open Nmfu
 
@@ -250,6 +251,17 @@ def cmdOptPass (args : List String) : String :=
     | _, .error e => s!"error parseB {e}"
   | _ => "error bad-args"
 
+/-- `condgen|<enabled 0/1>|<L>|<hasEnd 0/1>|<values>`: the tests the mirror emits, ranges first in run order, then equalities -/
+def cmdCondGen (args : List String) : String :=
+  match args with
+  | [en, l, he, vs] =>
+    let vals := (vs.splitOn " ").filterMap String.toNat?
+    let cs := condChecks (en == "1") l.toNat! (he == "1") vals
+    " ".intercalate (cs.map fun c => match c with
+      | .range lo hi => s!"r:{lo}:{hi}"
+      | .eq v => s!"e:{v}")
+  | _ => "error bad-args"
+
 def cmdSpin (args : List String) : String :=
   match args with
   | [opts, m] =>
@@ -413,6 +425,7 @@ def handle (line : String) : String :=
   | "wf" :: args => cmdWf args
   | "spin" :: args => cmdSpin args
   | "optpass" :: args => cmdOptPass args
+  | "condgen" :: args => cmdCondGen args
   | "labels" :: args => cmdLabels args
   | "cli" :: args => cmdCli args
   | "lit" :: args => cmdLit args
